@@ -351,9 +351,13 @@ func forestRun(id int, parent []int, rng *rand.Rand) forestRec {
 				walk(c, v)
 			}
 		}
+		// FullMesh must leave the hierarchy as it is: it is taken (twice) BEFORE the nodes are inspected
+		for _, r := range roots {
+			r.FullMesh()
+			rec.NFaces += r.FullMesh().NumTriangles()
+		}
 		for _, r := range roots {
 			walk(r, 0)
-			rec.NFaces += r.FullMesh().NumTriangles()
 		}
 		for k := 0; k < 60; k++ {
 			// probe points off every face: coordinates with a fractional part of 0.37
@@ -431,8 +435,11 @@ func forest2Run(id int, parent []int, rng *rand.Rand) forestRec {
 			}
 		}
 		for _, r := range roots {
-			walk(r, 0)
+			r.FullMesh()
 			rec.NFaces += 3 * r.FullMesh().NumSegments()
+		}
+		for _, r := range roots {
+			walk(r, 0)
 		}
 		for k := 0; k < 60; k++ {
 			var p [2]float64
